@@ -63,14 +63,14 @@ theorem namesTG_map_tail (a : String) (r : List String) (g : List Char) :
     simp only [namesTG, List.cons_append, List.map_cons, tailT]
     rw [ih b]
 
-theorem paramsTG_map (ns : List String) : (paramsTG ns).map (·.1) = paramT ns := by
+theorem paramsTG_map (ns : List String) (e : List Char) : (paramsTG ns e).map (·.1) = paramT ns := by
   cases ns with
   | nil => rfl
   | cons a r =>
     simp only [paramsTG, List.map_cons, paramT]
     rw [namesTG_map_tail]
 
-theorem stmtTG_map (st : BStmt) : (stmtTG st).map (·.1) = stmtT st := by
+theorem stmtTG_map (e : List Char) (st : BStmt) : (stmtTG e st).map (·.1) = stmtT st := by
   cases st with
   | intf ns => simp only [stmtTG, List.map_cons, stmtT, paramsTG_map]
   | gate n k d => simp only [stmtTG, List.map_cons, stmtT, paramsTG_map]
@@ -372,32 +372,33 @@ theorem layoutOK_name_punct (n : List Char) (t : Tok) (g : List Char) (rest : Li
     | cons c r => rw [htt] at ht; exact ht
   simp only [layoutOK, this, gapB, Bool.or_true, Bool.and_self, Bool.true_and]
 
-theorem layout_names (ns : List String) (rest : List (Tok × List Char)) :
-    layoutOK (namesTG ns ++ (.rpar, ['\n']) :: rest) = layoutOK rest := by
+theorem layout_names (ns : List String) (e : List Char) (he : gapB .ws e = true) (rest : List (Tok × List Char)) :
+    layoutOK (namesTG ns ++ (.rpar, e) :: rest) = layoutOK rest := by
   fun_induction namesTG ns with
-  | case1 => exact layoutOK_punct _ _ _ rfl (by decide)
+  | case1 => exact layoutOK_punct _ _ _ rfl he
   | case2 a =>
     simp only [List.cons_append, List.nil_append]
     rw [layoutOK_name_punct _ _ _ _ (by decide) (by decide)]
-    exact layoutOK_punct _ _ _ rfl (by decide)
+    exact layoutOK_punct _ _ _ rfl he
   | case3 a b r ih =>
     simp only [List.cons_append]
     rw [layoutOK_name_punct _ _ _ _ (by decide) (by decide), layoutOK_punct _ _ _ rfl (by decide)]
     exact ih
 
-theorem layout_params (ns : List String) (rest : List (Tok × List Char)) :
-    layoutOK (paramsTG ns ++ rest) = layoutOK rest := by
+theorem layout_params (ns : List String) (e : List Char) (he : gapB .ws e = true) (rest : List (Tok × List Char)) :
+    layoutOK (paramsTG ns e ++ rest) = layoutOK rest := by
   simp only [paramsTG, List.cons_append, List.append_assoc, List.nil_append]
   rw [layoutOK_punct _ _ _ rfl (by decide)]
-  exact layout_names ns rest
+  exact layout_names ns e he rest
 
-theorem layout_stmt (st : BStmt) (rest : List (Tok × List Char)) : layoutOK (stmtTG st ++ rest) = layoutOK rest := by
+theorem layout_stmt (e : List Char) (he : gapB .ws e = true) (st : BStmt) (rest : List (Tok × List Char)) :
+    layoutOK (stmtTG e st ++ rest) = layoutOK rest := by
   cases st with
   | intf ns =>
     simp only [stmtTG, List.cons_append]
     simp only [paramsTG, List.cons_append]
     rw [layoutOK_name_punct _ _ _ _ (by decide) (by decide)]
-    have := layout_params ns rest
+    have := layout_params ns e he rest
     simp only [paramsTG, List.cons_append] at this
     exact this
   | gate n k d =>
@@ -405,14 +406,29 @@ theorem layout_stmt (st : BStmt) (rest : List (Tok × List Char)) : layoutOK (st
     rw [layoutOK_name_gap _ _ _ (by decide) (by decide), layoutOK_punct _ _ _ rfl (by decide)]
     simp only [paramsTG, List.cons_append]
     rw [layoutOK_name_punct _ _ _ _ (by decide) (by decide)]
-    have := layout_params d rest
+    have := layout_params d e he rest
     simp only [paramsTG, List.cons_append] at this
     exact this
 
 theorem layout_bench (stmts : List BStmt) : layoutOK (benchTG stmts) = true := by
   induction stmts with
   | nil => rfl
-  | cons st rest ih => simp only [benchTG, List.flatMap_cons] at ih ⊢; rw [layout_stmt]; exact ih
+  | cons st rest ih => simp only [benchTG, List.flatMap_cons] at ih ⊢; rw [layout_stmt _ (by decide)]; exact ih
+
+theorem layout_benchWith (sg : List (BStmt × List Char)) (hg : ∀ p ∈ sg, gapB .ws p.2 = true) : layoutOK (benchTGWith sg) = true := by
+  induction sg with
+  | nil => rfl
+  | cons p rest ih =>
+    simp only [benchTGWith, List.flatMap_cons] at ih ⊢
+    rw [layout_stmt _ (hg p List.mem_cons_self)]
+    exact ih (fun q hq => hg q (List.mem_cons_of_mem _ hq))
+
+theorem benchTGWith_toks (sg : List (BStmt × List Char)) : (benchTGWith sg).map (·.1) = benchToks (sg.map (·.1)) := by
+  induction sg with
+  | nil => rfl
+  | cons p rest ih =>
+    simp only [List.map_cons, benchToks_cons, ← ih]
+    simp only [benchTGWith, List.flatMap_cons, List.map_append, stmtTG_map]
 
 /-! ## the round trip -/
 
